@@ -500,6 +500,10 @@ class MistakeShock(Harness):
         # a high-frequency agent next to one normal agent (either may be the first on the target market)
         for target in ("M0", "M1"):
             out.append({"where": 1, "k": 0, "sign": "-", "enabled": True, "target": target, "A": 1, "hft": 1})
+        # the shock fires in a session that takes orders without executing them: the market price is frozen while
+        # the quotes (asymmetric around it) move the mid price
+        for target in ("M0", "M1"):
+            out.append({"where": 1, "k": 1, "sign": "-", "enabled": True, "target": target, "A": 2, "noexec": True})
         # orders at the trigger time and in the step after it (a shock not used at its time stays unused)
         for where, k in ((0, 0), (1, 0)):
             for target in ("M0", "M1"):
@@ -508,7 +512,8 @@ class MistakeShock(Harness):
 
     def run(self, g, case):
         markets = {f"M{i}": {"class": "Market", "tickSize": 1, "marketPrice": 300 + 100 * i} for i in range(2)}
-        sessions = [rn.session(0, 1, True, True, maxNormalOrders=3), rn.session(1, 2, True, True, maxNormalOrders=3)]
+        sessions = [rn.session(0, 1, True, True, maxNormalOrders=3),
+                    rn.session(1, 2, True, not case.get("noexec"), maxNormalOrders=3)]
         sessions[0]["events"] = ["PROBE"]
         sessions[case["where"]].setdefault("events", []).append("SHOCK")
         shock = {"class": "OrderMistakeShock", "target": case["target"], "triggerTime": case["k"],
@@ -525,8 +530,9 @@ class MistakeShock(Harness):
         # every agent quotes one non-crossing limit order per step on a solver-chosen market (buy below / sell
         # above the market price), from the step before the trigger time to the trigger time
         post = case.get("span") == "post"
+        asym = {"price_rel": 30} if case.get("noexec") else {}
         menu = {"acts": ["limit"], "vol_fixed": 1, "price_rel": 10, "active_from": trigger if post else max(trigger - 1, 0),
-                "active_until": trigger + 1 if post else trigger, "per_agent": {"0": {"side": "B"}, "1": {"side": "S"}}}
+                "active_until": trigger + 1 if post else trigger, "per_agent": {"0": {"side": "B"}, "1": dict({"side": "S"}, **asym)}}
         ctx = rn.make_run(g, st, menu, on_event=on_event)
         sim = ctx.sim
         rate = None
